@@ -15,6 +15,10 @@ DAY = dt.timedelta(days=1)
 
 
 def gen(rng):
+    if rng.random() < 0.4:
+        # generator >> TimeTrigger (start and output metadata taken from its input) >> consumer: an acyclic chain, any listing
+        return {"part": "pkginit", "chain": "trigger", "order": rng.sample([0, 1, 2], 3), "late": rng.choice([0, 0, 1, 2]),
+                "cons_step": rng.choice([1, 2])}
     return {"part": "pkginit", "late": rng.choice([0, 1, 2, 5]), "cons_step": rng.choice([1, 2, 3]), "order_flip": rng.random() < 0.5,
             "static": rng.random() < 0.2}
 
@@ -23,7 +27,38 @@ def value(t):
     return 10.0 * (t - T0).days + 1.0
 
 
+def run_chain(case):
+    got = []
+    try:
+        ts = T0 + case["late"] * DAY
+        src = fm.components.CallbackGenerator({"Out": (value, fm.Info(time=None, grid=fm.NoGrid(), units="m"))}, start=ts, step=DAY)
+        trig = fm.components.TimeTrigger(in_info=fm.Info(time=None, grid=None, units=None), start=None, step=DAY, start_from_input=True)
+        sink = fm.components.DebugConsumer({"In": fm.Info(time=None, grid=None, units=None)}, start=ts, step=case["cons_step"] * DAY,
+                                           callbacks={"In": lambda n, d, t: got.append(((t - T0).days, float(np.asarray(fm.data.get_magnitude(d)).reshape(-1)[0])))})
+        comps = [src, trig, sink]
+        comp = fm.Composition([comps[k] for k in case["order"]])
+        src.outputs["Out"] >> trig.inputs["In"]
+        trig.outputs["Out"] >> sink.inputs["In"]
+        limited(60, comp.connect, ts)
+        return {"initial": list(got), "status": [str(c.status) for c in comps]}
+    except Exception as e:  # noqa
+        return {"err": type(e).__name__, "msg": str(e)[:200]}
+
+
+def oracle_chain(case, impl):
+    if "err" in impl:
+        return ("connect() of an acyclic chain generator >> TimeTrigger >> consumer ends with every component connected, in every listing order",
+                {"error": impl["err"], "msg": impl["msg"], "order": case["order"]})
+    want = value(T0 + case["late"] * DAY)
+    if not impl["initial"] or abs(impl["initial"][0][1] - want) > 1e-9:
+        return ("every requested initial pull delivers the producer's initial value (through a TimeTrigger)",
+                {"initial_pull": impl["initial"][:1], "initial_value": want})
+    return None
+
+
 def run(case):
+    if case.get("chain") == "trigger":
+        return run_chain(case)
     got = []
     try:
         ts = T0 + case["late"] * DAY
@@ -44,6 +79,8 @@ def run(case):
 
 
 def oracle(case, impl):
+    if case.get("chain") == "trigger":
+        return oracle_chain(case, impl)
     if "err" in impl:
         return ("connect() of a generator and a consumer completes", {"error": impl["err"], "msg": impl["msg"]})
     if case["static"]:
